@@ -159,7 +159,7 @@ def continuous_scope(ctx):
         except AssertionError: continue
         except Exception as e:
             ctx.check('ContinuousDiscretizer.fit#raises.only_AssertionError', 'ContinuousDiscretizer.fit', False, w, '%s: %s' % (type(e).__name__, str(e)[:120])); continue
-        order = d.values_orders['q']; leaders = [float(l) for l in order if l != d.str_nan]
+        order = d.values_orders['q']; leaders = [float(l) for l in order if l != d.str_nan]; w = dict(w, boundaries=[l for l in leaders if l != float('inf')])
         vc = X['q'].value_counts()
         ctx.check('ContinuousDiscretizer.fit#post.boundaries_strictly_increasing_observed_then_inf', 'ContinuousDiscretizer.fit',
                   all(a < b for a, b in zip(leaders, leaders[1:])) and leaders[-1] == float('inf') and all(l in vc.index for l in leaders[:-1]), w, 'boundaries %r' % (leaders,))
